@@ -9,6 +9,20 @@ from sim import harness
 from sim import refmodel
 
 PROP = 'C11'
+POLICY_CONFIGS = ['dynamic_wi8_afp32', 'dynamic_wi4_afp32', 'static_wi8_ai16', 'static_wi4_ai16',
+                  'static_wi8_ai8', 'static_wi4_ai8', 'weightonly_wi8_afp32', 'weightonly_wi4_afp32']
+
+
+def policy_json(variant):
+  """The default policy, optionally with some operators removed from one config's list."""
+  import json
+  from ai_edge_quantizer import default_policy
+  pol = json.loads(default_policy.DEFAULT_JSON_POLICY)
+  if variant[0] == 'drop':
+    _, cfgname, drop = variant
+    if cfgname in pol['ops_per_config']:
+      pol['ops_per_config'][cfgname] = [o for o in pol['ops_per_config'][cfgname] if o not in drop]
+  return json.dumps(pol)
 
 
 # ---------------------------------------------------------------- generation
@@ -44,6 +58,7 @@ def generate(rseed, tier='quick'):
       'p_good': r.choice([0.6, 0.75, 0.85, 0.95]),
       'two_managers': r.random() < 0.75,
       'facade': r.choice(['quantizer', 'quantizer', 'manager']),
+      'policy_ops': r.random() < 0.35,
   }
   n = r.randint(3, 14 if tier == 'quick' else 20)
   trace = []
@@ -66,6 +81,14 @@ def generate(rseed, tier='quick'):
       trace.append({'op': 'load', 'm': m, 'export_of': 1 - m})
     elif k < 0.90:
       trace.append({'op': 'load', 'm': m, 'shipped': r.choice(A.SHIPPED)})
+    elif k < 0.95 and knobs['policy_ops']:
+      # the support-check policy is process-global state that the check reads at resolution time
+      if r.random() < 0.25:
+        trace.append({'op': 'policy', 'm': m, 'variant': ['default']})
+      else:
+        cfgname = r.choice(POLICY_CONFIGS)
+        drop = r.sample(ops, min(len(ops), r.randint(1, 3)))
+        trace.append({'op': 'policy', 'm': m, 'variant': ['drop', cfgname, [o for o in drop if o != '*']]})
     else:
       trace.append({'op': 'export', 'm': m})
   probe_ops = sorted(set(o for o in ops if o != '*'))
@@ -233,6 +256,7 @@ def execute(doc):
   mgrs = [Mgr(knobs.get('facade', 'quantizer'), mbytes) for _ in range(2)]
   probe_ops, probe_scopes = doc['world']['probe_ops'], doc['world']['probe_scopes']
   accepted = 0
+  policy_changed = False
   for step, op in enumerate(doc['ops']):
     mg = mgrs[op['m']]
     other_before = core.digest(_export_key(mgrs[1 - op['m']].export()))
@@ -309,6 +333,25 @@ def execute(doc):
                       'export after a failed load is not a representable rule list: %s'
                       % harness.exc_class(e))
         rec.event(step, 'load', outcome, len(exported))
+    elif op['op'] == 'policy':
+      import os
+      from ai_edge_quantizer import algorithm_manager, default_policy
+      text = policy_json(op['variant'])
+      try:
+        if mg.q is not None:
+          path = os.path.join(rec.scratch(), 'policy-%d.json' % step)
+          with open(path, 'w') as f:
+            f.write(text)
+          mg.q.load_config_policy(path)
+        else:
+          algorithm_manager.register_config_check_policy_func(
+              algorithm_manager.AlgorithmName.MIN_MAX_UNIFORM_QUANT,
+              default_policy.update_default_config_policy(text))
+        rec.event(step, 'policy', 'ok', op['variant'][0])
+        rec.fault('policy_changed')
+        policy_changed = True
+      except Exception as e:  # pylint: disable=broad-except
+        rec.event(step, 'policy', 'raised:' + harness.exc_class(e))
     elif op['op'] == 'export':
       rec.event(step, 'export', 'ok')
     # ---- invariants after every step
@@ -323,7 +366,10 @@ def execute(doc):
       rec.violate('C11/impure-resolution', step,
                   'an operation on manager %d changed the rules of manager %d'
                   % (op['m'], 1 - op['m']))
-    probe_all(rec, step, mgrs, probe_ops, probe_scopes)
+    # After a policy change an accepted rule may legitimately be refused when re-added, so a fresh
+    # manager cannot be built by replaying adds: the purity twin is skipped from then on (narrow,
+    # deliberate); the refinement check against the model and the repeated-query check remain.
+    probe_all(rec, step, mgrs, probe_ops, probe_scopes, purity=not policy_changed)
     rec.state([core.digest(_export_key(m.export())) for m in mgrs])
     if accepted >= 2:
       rec.nontrivial = True
